@@ -39,6 +39,7 @@ pub struct Ctx {
     pub tier: Tier,
     pub seed: u64,
     replay: Option<Value>,
+    replay_path: Option<String>,
     start: Instant,
     evals: AtomicU64,
     outcomes: Mutex<BTreeMap<String, (u64, Value)>>,
@@ -87,7 +88,9 @@ impl Ctx {
             }
         };
         let mut replay = None;
+        let mut replay_path = None;
         if args.len() >= 5 && args[3] == "--replay" {
+            replay_path = Some(args[4].clone());
             let text = std::fs::read_to_string(&args[4]).unwrap_or_else(|e| {
                 eprintln!("cannot read replay file {}: {e}", args[4]);
                 std::process::exit(2);
@@ -113,6 +116,7 @@ impl Ctx {
             tier,
             seed,
             replay,
+            replay_path,
             start: Instant::now(),
             evals: AtomicU64::new(0),
             outcomes: Mutex::new(BTreeMap::new()),
@@ -292,14 +296,19 @@ impl Ctx {
         }
         let replay_dir = verif_dir().join("replays").join(&self.id);
         let mut lines = Vec::new();
-        if !new_viol.is_empty() {
+        if !new_viol.is_empty() && self.replay_path.is_none() {
             let _ = std::fs::create_dir_all(&replay_dir);
         }
         for (i, (k, (n, case))) in new_viol.iter().enumerate() {
-            let path = replay_dir.join(format!("{i:03}.json"));
-            let doc = json!({"property": self.id, "key": k, "occurrences": n, "case": case});
-            if let Err(e) = std::fs::write(&path, serde_json::to_string_pretty(&doc).unwrap()) {
-                eprintln!("cannot write replay file: {e}");
+            let mut path = replay_dir.join(format!("{i:03}.json"));
+            if let Some(rp) = &self.replay_path {
+                // Replaying: the case file already exists; do not rewrite it.
+                path = PathBuf::from(rp);
+            } else {
+                let doc = json!({"property": self.id, "key": k, "occurrences": n, "case": case});
+                if let Err(e) = std::fs::write(&path, serde_json::to_string_pretty(&doc).unwrap()) {
+                    eprintln!("cannot write replay file: {e}");
+                }
             }
             if i < 20 {
                 lines.push(format!(
